@@ -324,4 +324,11 @@ def gen_source(rng, unicode_noise=0.0, crlf=None, tabs=None, plain_strings=True,
             s.emit(f"def helper{k}(a, b=1):\n    x = 'fixture'\n    # @pytest.fixture\n    def test_inner(q):\n        pass\n    return x\n")
             s.emit(f"class Plain{k}(Base):\n    attr = 1\n")
             s.features.add("helpers")
+            if rng.random() < 0.5:
+                # other attributes of the pytest module are not fixture decorators
+                deco = rng.choice(["@pytest.hookimpl", "@pytest.hookimpl(tryfirst=True)", "@pytest.hookspec", "@pytest.hookspec(firstresult=True)",
+                                   "@pytest_asyncio.is_async_test", "@pytest.mark.fixture", "@other.fixture"])
+                arg = rng.choice(s.fixture_names + ["config", "item"])
+                s.emit(f"{deco}\ndef pytest_hook_{k}({arg}, session):\n    return {arg}\n")
+                s.features.add("not_a_fixture_decorator:" + deco.split("(")[0])
     return s
